@@ -5,6 +5,7 @@ package main
 
 import (
 	"fmt"
+	"strings"
 )
 
 const (
@@ -708,4 +709,136 @@ func genGetTypes(r *rng) []*scenario {
 			Path: fmt.Sprintf("/typed/%d", i), Tags: map[string]bool{}})
 	}
 	return out
+}
+
+// ---- C02: random federation graphs, delivered through Send ---------------------------------------------------
+
+func genDeliver(r *rng, k int) *scenario {
+	w := baseWorld(r)
+	cfg := defaultCfg()
+	cfg.MaxDelivery = 1 + r.intn(4)
+	alice := actorID(local, "alice")
+	// nodes: actors a0..a(n-1) on two hosts, collections c0..c(m-1); some unreachable / garbled / unknown type / no inbox
+	na, nc := 2+r.intn(6), 1+r.intn(5)
+	var actors, cols, all []string
+	for i := 0; i < na; i++ {
+		host := remote
+		if r.chance(1, 3) {
+			host = remote2
+		}
+		actors = append(actors, fmt.Sprintf("%s/g%d/actors/a%d", host, k, i))
+	}
+	for i := 0; i < nc; i++ {
+		cols = append(cols, fmt.Sprintf("%s/g%d/cols/c%d", remote, k, i))
+	}
+	all = append(append(all, actors...), cols...)
+	all = append(all, public, "as:Public", alice, actorID(local, "bob"), fmt.Sprintf("%s/g%d/missing", remote, k))
+	for _, a := range actors {
+		switch r.intn(12) {
+		case 0:
+			w.Remote[a] = remoteDoc{Kind: "unreachable"}
+		case 1:
+			w.Remote[a] = remoteDoc{Kind: "notjson", Raw: "<html>not json</html>"}
+		case 2:
+			w.Remote[a] = remoteDoc{Kind: "doc", Doc: jmap{"@context": asCtx, "type": "Gizmo", "id": a, "inbox": a + "/inbox"}}
+		case 3:
+			w.Remote[a] = remoteDoc{Kind: "doc", Doc: jmap{"type": "Person", "id": a, "inbox": a + "/inbox"}} // no @context
+		case 4:
+			if r.chance(1, 3) { // an actor document without an inbox: fails the delivery
+				w.Remote[a] = remoteDoc{Kind: "doc", Doc: jmap{"@context": asCtx, "type": "Person", "id": a}}
+				break
+			}
+			fallthrough
+		default:
+			p := person(a)
+			if r.chance(1, 4) { // a shared inbox: two actors, one inbox URL
+				p["inbox"] = remote + "/shared/inbox"
+			}
+			if r.chance(1, 8) {
+				p["type"] = pick(r, []string{"Service", "Group", "Application", "Organization"})
+			}
+			w.Remote[a] = remoteDoc{Kind: "doc", Doc: p}
+		}
+		if r.chance(1, 4) {
+			w.InboxForActor[a] = a + "/stored-inbox"
+		}
+	}
+	for i, c := range cols {
+		var items []interface{}
+		for j := 0; j < r.intn(5); j++ {
+			switch r.intn(6) {
+			case 0: // nested / cyclic
+				items = append(items, pick(r, cols))
+			case 1:
+				if i+1 < len(cols) { // a chain: depth matters
+					items = append(items, cols[i+1])
+				} else {
+					items = append(items, pick(r, actors))
+				}
+			case 2:
+				items = append(items, pick(r, all))
+			default:
+				items = append(items, pick(r, actors))
+			}
+		}
+		if r.chance(1, 3) && len(items) > 0 {
+			items = append(items, items[0]) // duplicates
+		}
+		ty := pick(r, []string{"Collection", "OrderedCollection", "CollectionPage", "OrderedCollectionPage"})
+		doc := jmap{"@context": asCtx, "type": ty, "id": c}
+		if strings.HasPrefix(ty, "Ordered") {
+			doc["orderedItems"] = one(items)
+		} else {
+			doc["items"] = one(items)
+		}
+		if len(items) == 0 {
+			delete(doc, "items")
+			delete(doc, "orderedItems")
+		}
+		w.Remote[c] = remoteDoc{Kind: "doc", Doc: doc}
+		if r.chance(1, 10) {
+			w.Remote[c] = remoteDoc{Kind: "unreachable"}
+		}
+	}
+	if r.chance(1, 3) {
+		w.InboxForActor[actorID(local, "bob")] = inboxOf(actorID(local, "bob"))
+	}
+	if r.chance(1, 6) {
+		w.InboxForActor[alice] = inboxOf(alice) // the sender's own inbox, stored
+	}
+	// an application that would answer for Public if it were ever asked
+	w.InboxForActor[public] = remote + "/public-sink"
+	w.InboxForActor["as:Public"] = remote + "/public-sink"
+	body := jmap{"@context": asCtx, "type": pick(r, []string{"Create", "Announce", "Like", "Travel", "Offer"}), "actor": alice,
+		"object": jmap{"type": "Note", "content": fmt.Sprintf("g%d", k)}}
+	for _, p := range []string{"to", "bto", "cc", "bcc", "audience"} {
+		if !r.chance(3, 5) {
+			continue
+		}
+		var l []interface{}
+		for i := 0; i < 1+r.intn(4); i++ {
+			id := pick(r, all)
+			if r.chance(1, 3) {
+				id = pick(r, cols)
+			}
+			l = append(l, iriOrEmbedded(r, id))
+			if r.chance(1, 5) { // the same id twice in a row (also Public twice)
+				l = append(l, id)
+			}
+		}
+		body[p] = one(l)
+	}
+	sc := outboxScenario("deliver:"+body["type"].(string), w, cfg, body)
+	sc.Entry = "send"
+	sc.Send = body
+	sc.Body = nil
+	if body["type"] == "Create" { // social normalisation copies many ids in Go map order: judged, not replayed
+		sc.NoReplay = true
+	}
+	if r.chance(1, 4) { // the same graph reached by a client POST
+		sc.Entry = "postoutbox"
+		sc.Body = body
+		sc.Send = nil
+	}
+	return sc
 }
